@@ -340,7 +340,7 @@ def probe_class(world, cls, base):
         if o1i['exc'] != 'ValueError':
             ints = True
     attr_kind, order, points = {}, [], []
-    inconsistent = {}
+    inconsistent, computed = {}, set()
     ev_notes = set()
     for hd in (False, True):
         row = []
@@ -378,6 +378,14 @@ def probe_class(world, cls, base):
                         else:
                             good = a in forms and forms[a][0] in ('derived', 'structured')
                         if not good:
+                            # a number that is neither a parameter nor a constant under both vectors was COMPUTED from the
+                            # parameters by code that lost the provenance (`CELL.cosal` when the tokens do not go through
+                            # float()): left out of the table like any other derived value, not a contradiction
+                            fa = forms.get(a, ['unset'])
+                            fb = classify(o['values'][a], i, n, ints, hd) if a in o['values'] else ['unset']
+                            if all(f[0] == 'const' and plain_number(f[1]) for f in (fa, fb)):
+                                computed.add(a)
+                                continue
                             inconsistent.setdefault(a, f'n={n}{" after DEFS" if hd else ""}: `{SETS[prim][0]}` values give '
                                                        f'{forms.get(a, ["unset"])}, `{SETS[i][0]}` values give '
                                                        f'{short(o["values"].get(a, "unset"))}')
@@ -399,7 +407,8 @@ def probe_class(world, cls, base):
     if ev_notes:
         notes.append('branches on parameter values (confirmed on all sample vectors): ' + '; '.join(sorted(ev_notes)[:6]))
     return dict(name=cls.__name__, base=base.__name__, intnums=ints, words=words, points=points, order=order,
-                attr_kind=attr_kind, inconsistent=sorted(inconsistent), notes=notes, unreadable=unreadable)
+                attr_kind=attr_kind, inconsistent=sorted(inconsistent), computed=sorted(computed - set(inconsistent)), notes=notes,
+                unreadable=unreadable)
 
 
 def short(v):
@@ -445,7 +454,7 @@ def run(repo):
             except Exception as e:     # noqa
                 traceback.print_exc(file=sys.stderr)
                 classes.append(dict(name=cls.__name__, base=base.__name__, intnums=False, words=None, points=None, order=[],
-                                    attr_kind={}, inconsistent=[], notes=[],
+                                    attr_kind={}, inconsistent=[], computed=[], notes=[],
                                     unreadable=f'the constructor could not be probed: {type(e).__name__}: {e}'))
     return dict(classes=jsonable(classes), lost=lost, nmax=NMAX)
 
